@@ -119,8 +119,13 @@ def run_one(case):
                 if self.fault == 'main':
                     await asyncio.sleep(7 * MS)
                     raise Boom('main task')
-                while True:
-                    await asyncio.sleep(1)
+                try:
+                    while True:
+                        await asyncio.sleep(1)
+                finally:
+                    if self.fault == 'slow_cleanup':
+                        # the main task's own clean-up takes longer than the block's stop_timeout
+                        await asyncio.sleep(100 * MS)
 
         class F(edzed.FSM):
             STATES = ['off', 'on', 'warm']
@@ -156,7 +161,7 @@ def run_one(case):
                 blk = AProbe(name, bd=bd, init_timeout=bd.get('init_timeout_ms', 20) * MS,
                              stop_timeout=bd.get('stop_timeout_ms', 20) * MS)
             elif t == 'mtask':
-                blk = MT(name, fault=bd.get('fault'), stop_timeout=20 * MS)
+                blk = MT(name, fault=bd.get('fault'), stop_timeout=(5 if bd.get('fault') == 'slow_cleanup' else 20) * MS)
             elif t == 'fsm':
                 blk = F(name, initdef='warm' if bd.get('chain') else 'on')
             elif t == 'repeat':
@@ -545,6 +550,9 @@ DIRECTED = [
         dict(t='mtask')], None, 'running', fault_ms=4),
     _d([dict(t='probe'), dict(t='probe', fault='handler_sim'), dict(t='func'), dict(t='oasync', mode='wait'),
         dict(t='repeat')], 'support_return', 'running', wait_init=True, fault_ms=6),
+    # a main task whose own clean-up (after the cancellation) outlasts the block's stop_timeout
+    _d([dict(t='probe'), dict(t='mtask', fault='slow_cleanup'), dict(t='ofunc')], 'shutdown', 'running', fault_ms=6),
+    _d([dict(t='probe'), dict(t='mtask', fault='slow_cleanup'), dict(_AP, stop_ms=3)], 'abort', 'running', fault_ms=6),
     # stop_data = {} (empty, but not None) for coroutines without arguments
     _d([dict(t='probe'), dict(t='oasync', mode='wait', empty_stop=True), dict(t='oasync', mode='cancel', empty_stop=True),
         dict(t='oasync', mode='start', empty_stop=True)], 'shutdown', 'running', fault_ms=6),
